@@ -20,6 +20,13 @@
 (* Route configuration cfg: "single" (WithJwt(cur)), "transition"          *)
 (* (WithJwtTransition(cur, prev)), "same" (transition with prev = cur).    *)
 (*                                                                         *)
+(* Server construction `server`: how the middleware chain in front of the   *)
+(* gate is built - "default" (built-in chain), "chain" (api.WithChain with *)
+(* a custom chain), "use" (built-in chain plus a Server.Use middleware),   *)
+(* "chain+use".  The statement is about the route, so the verdict does not  *)
+(* mention it; it is a dimension only so that every way the engine composes *)
+(* the chain is driven.                                                    *)
+(*                                                                         *)
 (* The statement: the handler runs iff the token's HMAC signature verifies *)
 (* under the current or the previous secret and its time claims are valid; *)
 (* then the non-registered claims are visible in the context; otherwise    *)
@@ -36,15 +43,17 @@ EXTENDS Integers, Sequences, FiniteSets, TLC
 
 CONSTANTS Tokens,    \* set of token classes offered
           Cfgs,      \* set of route configurations
+          Servers,   \* set of server constructions
           MaxReq     \* requests per behaviour
 
 VARIABLES cfg,       \* route configuration of this behaviour
+          server,    \* server construction of this behaviour
           cnt,       \* parser history: secret -> successes (abstract secrets "cur", "prev")
           stale,     \* more than 24 h of timex time have passed since the parser was created
           n,         \* requests so far
           out
 
-core == <<cfg, cnt, stale, n>>
+core == <<cfg, server, cnt, stale, n>>
 vars == <<core, out>>
 
 HS == {"HS256", "HS384", "HS512"}
@@ -125,11 +134,11 @@ Bump(h, s, st) == IF st THEN [k \in DOMAIN h |-> IF k = s THEN 1 ELSE 0]
 (* ---------------------------------------------------------------- actions *)
 
 Init ==
-  /\ cfg \in Cfgs
+  /\ cfg \in Cfgs /\ server \in Servers
   /\ cnt = [k \in {"cur", "prev"} |-> 0]
   /\ stale = FALSE
   /\ n = 0
-  /\ out = [op |-> "config", cfg |-> cfg]
+  /\ out = [op |-> "config", cfg |-> cfg, server |-> server]
 
 Request(t) ==
   /\ n < MaxReq
@@ -138,14 +147,14 @@ Request(t) ==
      IN cnt' = IF s = "" \/ cfg = "single" THEN cnt ELSE Bump(cnt, s, stale)
   /\ out' = [op |-> "jwt", tok |-> t, expect |-> Verdict(t, cfg), visible |-> Visible(t),
              hidden |-> Registered]
-  /\ UNCHANGED <<cfg, stale>>
+  /\ UNCHANGED <<cfg, server, stale>>
 
 \* 25 hours of timex time pass (the parser forgets its counters on the next success)
 Advance ==
   /\ ~stale /\ n < MaxReq /\ cfg # "single"
   /\ stale' = TRUE
   /\ out' = [op |-> "advance", hours |-> 25]
-  /\ UNCHANGED <<cfg, cnt, n>>
+  /\ UNCHANGED <<cfg, server, cnt, n>>
 
 Next == (\E t \in Tokens : Request(t)) \/ Advance
 
@@ -153,7 +162,7 @@ Spec == Init /\ [][Next]_vars
 
 (* ---------------------------------------------------------------- properties *)
 
-TypeOK == cfg \in Cfgs /\ cnt \in [{"cur", "prev"} -> 0..MaxReq] /\ stale \in BOOLEAN /\ n \in 0..MaxReq
+TypeOK == cfg \in Cfgs /\ server \in Servers /\ cnt \in [{"cur", "prev"} -> 0..MaxReq] /\ stale \in BOOLEAN /\ n \in 0..MaxReq
 
 \* whatever the ordering state, trying the secrets one after the other decides exactly the
 \* statement's verdict: the history of earlier requests cannot change admission
